@@ -68,6 +68,8 @@ Example wf_rename_sat : wf_rename cfg0 fs0 (bs "base1") (bs "b2") = true
 Proof. vm_compute. repeat split. Qed.
 
 (* ---- C09: the derived layer holds user data (it is renamed), the hypotheses hold *)
+Example wf_remove_cfg_sat : wf_remove_cfg cfg0 fs0 (bs "dev1") = true /\ wf_remove_cfg cfg0 fs0 (bs "base1") = true.
+Proof. vm_compute. split; reflexivity. Qed.
 Example wf_remove_sat : wf_remove cfg0 fs0 (bs "dev1") = true
   /\ v_res (view_of_model cfg0 w0 (env0 NoFault) (CRemove (bs "dev1") false) []) = ROk
   /\ exists_ (wo_fs (v_after (view_of_model cfg0 w0 (env0 NoFault) (CRemove (bs "dev1") false) [])))
